@@ -236,3 +236,41 @@ Proof.
     rewrite <- E. apply IH; assumption. }
   intros Hb. apply G; [cbn; lia|assumption].
 Qed.
+
+(* ---------- lookup by value: the first symbol with that value ---------- *)
+Fixpoint find_val (c : cls) (value : N) (l : list sym) (i : N) : option N :=
+  match l with
+  | [] => None
+  | y :: t => if st_value (trunc_sym c y) =? value then Some i else find_val c value t (i + 1)
+  end.
+
+Lemma skipnN_nth {A} (l : list A) i x : nth_optN l i = Some x -> skipnN l i = x :: skipnN l (i + 1).
+Proof.
+  revert i; induction l as [|y t IH]; intros i H; cbn [nth_optN] in H; [discriminate|].
+  destruct (N.eqb_spec i 0) as [Ei|Hi].
+  - subst i. injection H as ->. cbn [skipnN N.add N.eqb Pos.eqb]. f_equal. cbn [N.sub]. symmetry. apply skipnN_0.
+  - cbn [skipnN]. destruct (N.eqb_spec i 0); [contradiction|]. destruct (N.eqb_spec (i + 1) 0); [lia|].
+    rewrite (IH _ H). f_equal. f_equal. lia.
+Qed.
+
+Theorem scan_values_first c e s ys value : forall fuel i,
+  Inv s -> contents s = sym_table c e ys -> sh_entsize s = sym_esz c -> sh_size s < size_bound c ->
+  i <= lenN ys -> lenN ys - i <= lenN fuel ->
+  scan_values fuel (s_data s) c e (sh_entsize s) value i (lenN ys) = Ok (find_val c value (skipnN ys i) i).
+Proof.
+  induction fuel as [|u f IH]; intros i HI HC HE HB Hi Hf.
+  - cbn [lenN] in Hf. assert (i = lenN ys) by lia. subst i. cbn [scan_values]. rewrite N.ltb_irrefl.
+    rewrite skipnN_all by lia. reflexivity.
+  - rewrite lenN_cons in Hf. cbn [scan_values]. destruct (N.ltb_spec i (lenN ys)) as [Hlt|Hge].
+    + destruct (nth_optN_some ys i Hlt) as (y & Hy).
+      pose proof (sym_roundtrip c e s ys i y HI HC HE HB Hy) as R. unfold sym_get_core in R.
+      destruct (s_data s) as [b|] eqn:Eb.
+      * destruct (N.ltb_spec i (lenN ys)); [|lia].
+        destruct (rd (Some b) (wrap64 (i * sh_entsize s)) (layout_sz (sym_layout c))) as [ent|] eqn:Er; [|discriminate].
+        cbn [bind] in R |- *. injection R as R. rewrite R.
+        rewrite (skipnN_nth ys i y Hy). cbn [find_val].
+        destruct (st_value (trunc_sym c y) =? value); [reflexivity|].
+        apply IH; try assumption; lia.
+      * discriminate.
+    + assert (i = lenN ys) by lia. subst i. rewrite skipnN_all by lia. reflexivity.
+Qed.
